@@ -90,3 +90,12 @@ pub use crate::{
 
 // re-export for error handling
 pub use rustic_core::{ErrorKind, RusticError, RusticResult, Severity, Status};
+
+/// Verification hooks (compiled only with `--cfg rustic_core_verif`).
+#[cfg(rustic_core_verif)]
+#[allow(missing_docs, clippy::all, clippy::pedantic, clippy::nursery)]
+pub mod verif {
+    pub use crate::local::verif_hooks as local;
+    #[cfg(feature = "opendal")]
+    pub use crate::opendal::verif_hooks as opendal;
+}
